@@ -664,9 +664,63 @@ def run_edited(res, key):
             res.violation('C06.effect', f'literal-spelling-of-an-earlier-value-written|{key.split(".")[0].rstrip("=")}', case, [want, names], [got, names2], note=out[:300])
 
 
+# DOMs that were built through the API: what the preferences do to a declaration does not depend on the call that added it
+BUILT_BASE = '@variables{c:red;n:1px}a{left:0}@font-face{font-style:normal}@page{margin:0;@top-left{left:0}}@media print{b{left:0}}'
+BUILT_TARGETS = {
+    'style': lambda s: s.cssRules[1].style, 'font-face': lambda s: s.cssRules[2].style, 'page': lambda s: s.cssRules[3].style,
+    'margin-box': lambda s: s.cssRules[3].cssRules[0].style, 'nested-style': lambda s: s.cssRules[4].cssRules[0].style,
+}
+BUILT_DECLS = [('color', 'var(c)'), ('top', 'var(n)'), ('color', 'var(n)'), ('font-family', 'x, y'), ('colour', 'red'), ('color', '1px'), ('src', 'url(a)')]
+BUILT_ROUTES = {
+    'setProperty(name,value)': lambda st, n, v: st.setProperty(n, v),
+    'setProperty(Property)': lambda st, n, v: st.setProperty(cssutils.css.Property(n, v)),
+    'style[name]=': lambda st, n, v: st.__setitem__(n, v),
+    'cssText=': lambda st, n, v: setattr(st, 'cssText', st.cssText + ';' + n + ':' + v),
+    'setProperty(Property of another block)': lambda st, n, v: st.setProperty(cssutils.css.CSSStyleDeclaration(cssText=n + ':' + v).getProperties(all=True)[0]),
+}
+BUILT_PREFS = [[], [('resolveVariables', False)], [('validOnly', True)], [('validOnly', True), ('resolveVariables', False)], 'minified']
+
+
+def run_built(res, target):
+    for n, v in BUILT_DECLS:
+        for prefs in BUILT_PREFS:
+            outs = {}
+            case = {'kind': 'built', 'target': target, 'declaration': [n, v], 'set': prefs}
+            res.evaluations += 1
+            res.nontrivial += 1
+            res.clauses['C06.effect'] += 1
+            for route, add in BUILT_ROUTES.items():
+                guard.pristine()
+                try:
+                    with guard.watchdog(WATCHDOG):
+                        sheet = _parser().parseString(BUILT_BASE)
+                        cssutils.log.raiseExceptions = False  # (an invalid declaration is added and reported, as during a parse)
+                        with guard.collect_log():
+                            add(BUILT_TARGETS[target](sheet), n, v)
+                        if prefs == 'minified':
+                            cssutils.ser.prefs.useMinified()
+                        else:
+                            for k, val in prefs:
+                                setattr(cssutils.ser.prefs, k, val)
+                        with guard.collect_log():
+                            outs[route] = sheet.cssText.decode('utf-8')
+                except guard.Timeout:
+                    outs[route] = 'TIMEOUT'
+                except Exception as e:
+                    outs[route] = 'RAISED ' + guard.crash_site(e)
+                finally:
+                    cssutils.ser.prefs.useDefaults()
+                    cssutils.log.raiseExceptions = True
+            res.outcomes.add(h64(['built', target, n, v, prefs, outs['setProperty(name,value)']]))
+            for route, out in outs.items():
+                if out != outs['setProperty(name,value)']:
+                    res.violation('C06.effect', f'output-depends-on-the-call-that-added-the-declaration|{route}|{target}', dict(case, route=route),
+                                  outs['setProperty(name,value)'][:300], out[:300])
+
+
 def plan(tier):
     q = tier == 'quick'
-    shards = [['edited', k, 0, 0] for k in EDITED]
+    shards = [['edited', k, 0, 0] for k in EDITED] + [['built', k, 0, 0] for k in BUILT_TARGETS]
     np_, nm1, nm2 = len(pairs()), len(singles(MINIFIED)), len(pairs(MINIFIED))
     for name in SHEETS:
         shards.append(['single', name, 0, 0])
@@ -699,6 +753,11 @@ def run_shard(shard, tier, seed):
     if kind == 'edited':
         run_edited(res, name)
         res.sample({'kind': 'edited', 'key': name, 'text': EDITED[name][0], 'literal_spellings': True})
+        guard.pristine()
+        return res
+    if kind == 'built':
+        run_built(res, name)
+        res.sample({'kind': 'built', 'target': name, 'declaration': list(BUILT_DECLS[0]), 'set': [], 'route': 'setProperty(Property)'})
         guard.pristine()
         return res
     sh = Sheet(name)
@@ -864,6 +923,15 @@ def replay(case, tier, seed):
         run_edited(full, case['key'])
         for sig, v in full.violations.items():
             if v['case'].get('literal_spellings') == case.get('literal_spellings'):
+                res.violations[sig] = v
+                res.violation_counts[sig] += 1
+        guard.pristine()
+        return res
+    if case.get('kind') == 'built':
+        full = Result(seed)
+        run_built(full, case['target'])
+        for sig, v in full.violations.items():
+            if v['case'].get('declaration') == case.get('declaration') and v['case'].get('set') == case.get('set') and v['case'].get('route') == case.get('route'):
                 res.violations[sig] = v
                 res.violation_counts[sig] += 1
         guard.pristine()
